@@ -248,6 +248,7 @@ Proof.
   destruct (resolve s doc to) as [rt|] eqn:Et; [|discriminate]. cbn [bind] in Er.
   destruct (resolve_tokens s _ _ _ Et) as (Hto & _). rewrite DT_length. split; [|exact Hto].
   unfold replace_rp in Er. destruct (rp_depth rf <? _); [discriminate|]. destruct (negb _); [discriminate|].
+  destruct (rp_pos _ <? rp_pos _); [discriminate|]. destruct (_ && _); [discriminate|].
   destruct (replace_outer_copy s _ _ _ _ _ _ Er) as (n & X & En & ->).
   destruct (resolve_spec s _ _ _ Ef) as (_ & _ & _ & (i & o & rest & Hh) & _).
   unfold rp_node, path_at in En. rewrite Hh in En. cbn in En. inversion En; subst n.
